@@ -720,6 +720,8 @@ impl<Sink: TokenSink> Tokenizer<Sink> {
     // (this just simplifies control flow vs. break / continue).
     #[allow(clippy::never_loop)]
     fn step(&self, input: &BufferQueue) -> ProcessResult<Sink::Handle> {
+        #[cfg(servo_html5ever_verif)]
+        markup5ever::verif_hooks::tick("html tokenizer step");
         if self.char_ref_tokenizer.borrow().is_some() {
             return self.step_char_ref_tokenizer(input);
         }
